@@ -4,7 +4,7 @@ import json
 from harness import fml, shrink
 from harness.common import parse_fields
 from harness.runner import Check, need_vars, expect_vals
-from harness.modular import gen_modular, modular_spec
+from harness.modular import gen_modular, modular_spec, inlined_spec
 
 
 class C12(Check):
@@ -54,10 +54,10 @@ class C12(Check):
         # stand-alone specifications of every named formula
         for (nm, s) in names:
             su = fml.fvars(s)
-            out.append(dict(base, monitor='discrete-offline', spec='out = ' + fml.to_text(s), calls=[['evaluate', data]]))
+            out.append(dict(base, monitor='discrete-offline', calls=[['evaluate', data]], **inlined_spec(c, s)))
             if self.online_ok(c):
-                out.append(dict(base, monitor='discrete-online', pastify=past, spec='out = ' + fml.to_text(s),
-                                calls=[['update', k, [[fml.VARS[i], c['cols'][i][k]] for i in su]] for k in range(c['n'])]))
+                out.append(dict(base, monitor='discrete-online', pastify=past,
+                                calls=[['update', k, [[fml.VARS[i], c['cols'][i][k]] for i in su]] for k in range(c['n'])], **inlined_spec(c, s)))
         return out
 
     def judge(self, c, mlines, ires):
